@@ -122,7 +122,7 @@ def judge(prog: Any, ref: Any, run: dict[str, Any], info: dict[str, Any]) -> lis
             problems.append(("sweep-duplicated-pending-message",
                              f"the sweep queued {x['queued']} for task {x['task']} although a live {x['already']} message for it was already "
                              f"queued: a second chain of executions for one task", "dup-message"))
-    return one_violation("C10", problems, run["h"], ref["h"] if ref else None)
+    return one_violation("C10", problems, run["h"], ref["h"] if ref else None, prog=prog, fs=run["fs"])
 
 
 def judge_crash(prog: Any, ref: Any, run: dict[str, Any], info: dict[str, Any]) -> list[dict[str, Any]]:
